@@ -1,4 +1,5 @@
-"""C15  Json: parse . toString = id on Variant trees, toString emits valid JSON, the parser rejects
+"""C15  Json: parse . toString = id on Variant trees (so the text toString writes is accepted by parse; that it
+is also valid JSON for Python's json.loads is TESTED by the reference, not proved), the parser rejects
 malformed text with a position inside the text and never reads past the terminator, stripComments
 removes exactly the comments outside string literals and keeps every line break.
 
